@@ -82,6 +82,8 @@ def gen_mixfit(g, kind=None, thorough=False):
     if thorough and g.coin(0.3):
         K = int(g.choice([2, 3, 4]))
         D = int(g.choice([2, 3, 4, 5, 6, 7, 8, 9, 10]))
+    if g.coin(0.03):
+        K = int(g.choice([5, 6]))
     integration = kind in models.INTEGRATION
     opts = {}
     aligner = None
@@ -101,6 +103,8 @@ def gen_mixfit(g, kind=None, thorough=False):
         opts['weight_constant_axis'] = list(g.choice(
             [(-1,), (-3,), (-3, -1), (-3, -2, -1), (-2, -1)]))
     elif F > 0:
+        if kind != 'cbmm' and g.coin(0.04):
+            F = int(g.rng.randint(4, 13))      # many independent bins
         opts['weight_constant_axis'] = g.choice(
             [[-1], [-3], [-3, -1], -2, [-2], [-1]])
     else:
@@ -108,6 +112,8 @@ def gen_mixfit(g, kind=None, thorough=False):
     lead = [F] if F > 0 else []
     N = int(g.rng.randint(max(D, E if integration else 0) + 2,
                           30 if kind != 'cbmm' else 12))
+    if kind in ('cacgmm', 'cwmm', 'vmfmm') and F <= 3 and g.coin(0.006):
+        N = int(g.rng.randint(3000, 5000))   # long signals
     if kind != 'cbmm' and g.coin(0.05):
         N = int(g.rng.randint(260, 600))    # size-dependent code paths
     if kind in ('gmm', 'gcacgmm') and g.coin(0.04):
@@ -124,6 +130,14 @@ def gen_mixfit(g, kind=None, thorough=False):
                        lead + [N, D], K=K,
                        spread=float(g.choice([1.0, 1.0, 0.3, 0.05, 0.01])),
                        dynamic_range=float(g.choice([0, 0, 0, 6, 12, 19])))
+        if a['obs']['kind'] == 'cclusters':
+            geometry = int(g.rng.randint(12))
+            if geometry == 0 and N >= K * (D + 2) + 4:
+                a['obs']['unbalanced'] = D + 2
+            elif geometry == 1:
+                a['obs']['duplicates'] = float(g.choice([0.05, 0.3]))
+            elif geometry == 2:
+                a['obs']['real_valued'] = True
     elif kind == 'vmfmm':
         a['obs'] = _mk(g, g.choice(['normal', 'rclusters']), lead + [N, D], K=K,
                        sep=float(g.choice([2.0, 2.0, 6.0, 30.0])))
@@ -223,6 +237,8 @@ def gen_distfit(g):
     if kind in ('watson', 'vmf', 'gaussian', 'ccsg') and g.coin(0.3):
         D = int(g.choice([2, 6, 7, 8, 9, 10, 12]))
         N = max(N, D + 2)
+    if kind in ('gaussian', 'ccsg') and g.coin(0.05):
+        D = 1
     a = {'op': 'distfit', 'kind': kind, 'D': D, 'opts': {}}
     # directional trainers: visit the whole concentration range
     noise = float(10 ** g.rng.uniform(-3, -0.3))
@@ -296,7 +312,8 @@ def gen_repetition(g):
     a.pop('sam', None)
     a['start'] = 'array'
     F, K = a['F'], a['K']
-    N = max(a['N'], 3 * K * max(a['D'], a['E'] if kind in models.INTEGRATION else 0))
+    N = max(a['N'], 4 * K * max(a['D'], a['E'] if kind in models.INTEGRATION else 0))
+    N = min(N, 400)
     a['N'] = N
     lead = [F] if F > 0 else []
     for key in ('obs', 'emb'):
@@ -305,6 +322,9 @@ def gen_repetition(g):
     a['init'] = _mk(g, 'affiliation', lead + [K, N])
     # one integer saliency per observation index, identical in every slice
     a['saliency'] = _mk(g, 'integers', [N], low=1, high=4)
+    if g.coin(0.3):
+        # weight zero == observation absent; counts up to 6
+        a['saliency'] = _mk(g, 'integers', [N], low=0, high=int(g.choice([4, 6])))
     if a['opts'].get('weight_constant_axis') in ([-3], [-3, ]):
         a['opts']['weight_constant_axis'] = [-3, -1]
     a['opts'].pop('inline_permutation_alignment', None)
